@@ -108,6 +108,38 @@ func init() {
 			in.allocLimit = in.concInt(a[0].(*Term), "alloc_limit")
 			return nil
 		},
+		"verif_taint_free": func(in *Interp, fr *frame, a []Value) Value {
+			// true iff no term in data mentions a variable occurring in secret (syntactic non-interference)
+			secretVars := map[*Term]bool{}
+			var collect func(t *Term, into map[*Term]bool, seen map[*Term]bool)
+			collect = func(t *Term, into map[*Term]bool, seen map[*Term]bool) {
+				if seen[t] {
+					return
+				}
+				seen[t] = true
+				if t.op == OpVar {
+					into[t] = true
+				}
+				for _, x := range t.args {
+					collect(x, into, seen)
+				}
+			}
+			seen := map[*Term]bool{}
+			for _, t := range in.flattenTerms(a[1]) {
+				collect(t, secretVars, seen)
+			}
+			seen2 := map[*Term]bool{}
+			for _, t := range in.flattenTerms(a[0]) {
+				used := map[*Term]bool{}
+				collect(t, used, seen2)
+				for v := range used {
+					if secretVars[v] {
+						return in.tc.tFalse
+					}
+				}
+			}
+			return in.tc.tTrue
+		},
 		"verif_native":      func(in *Interp, fr *frame, a []Value) Value { return in.tc.tFalse },
 		"verif_is_symbolic": func(in *Interp, fr *frame, a []Value) Value { return in.tc.tTrue },
 		"verif_timers": func(in *Interp, fr *frame, a []Value) Value {
